@@ -93,7 +93,7 @@ func checkEnvelope(kind string, v interface{}) (fails [][2]string, enc []byte, f
 		return
 	}
 	if err != nil {
-		fail("marshal-error:"+kind+":"+short(err), "json.Marshal of a well-formed "+kind+" failed: "+err.Error())
+		fail("marshal-error:"+short(err), "json.Marshal of a well-formed "+kind+" failed: "+err.Error())
 		return
 	}
 	enc = b
@@ -101,9 +101,9 @@ func checkEnvelope(kind string, v interface{}) (fails [][2]string, enc []byte, f
 	td := codec.DecodeTyped(kind, b)
 	switch {
 	case td.Panic != "":
-		fail("typed-decode-panic:"+kind+":"+td.Site, "typed decoder panicked on the library's own encoding: "+td.Panic)
+		fail("typed-decode-panic:"+td.Site, "typed decoder panicked on the library's own encoding: "+td.Panic)
 	case td.Err != nil:
-		fail("typed-decode-error:"+kind+":"+short(td.Err), "typed decoder rejected the library's own encoding: "+td.Err.Error())
+		fail("typed-decode-error:"+short(td.Err), "typed decoder rejected the library's own encoding: "+td.Err.Error())
 	default:
 		if d := codec.Diff(want, codec.Canon(td.Env)); d != "" {
 			fail("typed-roundtrip:"+d, fmt.Sprintf("typed decode of the encoding differs from the original at %s", d))
@@ -116,9 +116,9 @@ func checkEnvelope(kind string, v interface{}) (fails [][2]string, enc []byte, f
 	rc := codec.Receive(append(append([]byte{}, b...), '\n'), 2)
 	switch {
 	case rc.Panic != "":
-		fail("transport-panic:"+kind+":"+rc.Site, "transport Receive panicked on the library's own encoding: "+rc.Panic)
+		fail("transport-panic:"+rc.Site, "transport Receive panicked on the library's own encoding: "+rc.Panic)
 	case len(rc.Envs) == 0:
-		fail("transport-error:"+kind+":"+short(rc.Err), "transport Receive rejected the library's own encoding: "+rc.Err.Error())
+		fail("transport-error:"+short(rc.Err), "transport Receive rejected the library's own encoding: "+rc.Err.Error())
 	case len(rc.Envs) > 1:
 		fail("transport-split:"+kind, "transport Receive returned more than one envelope for one encoding")
 	default:
